@@ -33,15 +33,86 @@ const nKeys = 4
 var keys [nKeys]*types.FlowKey
 var keyIdx = map[types.FlowKey]int{}
 
+// policy hits of the harness's flow keys (same table as keyInfo in lean/CalicoVerif/Model/C32.lean):
+// policy id, action (0 allow, 1 deny, 2 pass), PolicyIndex; pendingFrom = index from which the hits are pending
+type hit struct{ pol, act, idx int }
+
+var keyHits = [nKeys][]hit{
+	{{1, 0, 0}},
+	{{1, 0, 0}, {2, 1, 1}},
+	{{1, 2, 0}, {2, 0, 1}, {1, 0, 2}},
+	{{3, 1, 0}, {2, 0, 3}, {3, 1, 0}},
+}
+var keyIngress = [nKeys]bool{false, true, false, true}
+var keyPendingFrom = [nKeys]int{1, 1, 3, 2}
+
+func protoHit(x hit) *proto.PolicyHit {
+	return &proto.PolicyHit{Kind: proto.PolicyKind_CalicoNetworkPolicy, Namespace: "ns", Name: fmt.Sprintf("p%d", x.pol), Tier: "default",
+		Action: proto.Action(x.act + 1), PolicyIndex: int64(x.idx), RuleIndex: int64(7 + x.idx)}
+}
+
 func init() {
 	for i := 0; i < nKeys; i++ {
+		tr := &proto.PolicyTrace{}
+		for j, x := range keyHits[i] {
+			if j < keyPendingFrom[i] {
+				tr.EnforcedPolicies = append(tr.EnforcedPolicies, protoHit(x))
+			} else {
+				tr.PendingPolicies = append(tr.PendingPolicies, protoHit(x))
+			}
+		}
+		rep := proto.Reporter_Src
+		if keyIngress[i] {
+			rep = proto.Reporter_Dst
+		}
 		keys[i] = types.NewFlowKey(
 			&types.FlowKeySource{SourceName: fmt.Sprintf("src%d", i), SourceNamespace: "ns"},
 			&types.FlowKeyDestination{DestName: "dst", DestNamespace: "ns", DestPort: int64(80 + i)},
-			&types.FlowKeyMeta{Proto: "tcp", Reporter: proto.Reporter_Src, Action: proto.Action_Allow},
-			&proto.PolicyTrace{})
+			&types.FlowKeyMeta{Proto: "tcp", Reporter: rep, Action: proto.Action_Allow},
+			tr)
 		keyIdx[*keys[i]] = i
 	}
+}
+
+// expected statistics of a set of accepted flows, computed independently of the Lean model:
+// result key "pol/action+1/ruleIndex/direction" -> six counts
+func expectStats(fl []*accepted, typ int, byRule bool) map[string][6]int64 {
+	out := map[string][6]int64{}
+	for _, a := range fl {
+		seen := map[hit]bool{}
+		for _, x := range keyHits[a.key] {
+			if seen[x] {
+				continue // one contribution per distinct (policy, action, index) of the flow
+			}
+			seen[x] = true
+			var in, outv int64
+			switch typ {
+			case 0:
+				in, outv = a.cnt, 2*a.cnt
+			case 1:
+				in, outv = 3*a.cnt, 4*a.cnt
+			default:
+				if keyIngress[a.key] {
+					in = a.cnt
+				} else {
+					outv = a.cnt
+				}
+			}
+			k := fmt.Sprintf("%d/0/0/0", x.pol)
+			if byRule {
+				d := 2
+				if keyIngress[a.key] {
+					d = 1
+				}
+				k = fmt.Sprintf("%d/%d/%d/%d", x.pol, x.act+1, x.idx, d)
+			}
+			c := out[k]
+			c[2*x.act] += in
+			c[2*x.act+1] += outv
+			out[k] = c
+		}
+	}
+	return out
 }
 
 type accepted struct {
@@ -362,6 +433,80 @@ func exec(h sink, s *state, op string) string {
 			}
 		}
 		return strings.Join(ss, ",") + " | " + dump(s.r)
+	case "stats":
+		typ, byRule, gte, lt := int(atoi(w[1])), w[2] != "0", atoi(w[3]), atoi(w[4])
+		gb := proto.StatisticsGroupBy_Policy
+		if byRule {
+			gb = proto.StatisticsGroupBy_PolicyRule
+		}
+		res, err := s.r.Statistics(&proto.StatisticsRequest{StartTimeGte: gte, StartTimeLt: lt, Type: proto.StatisticType(typ), GroupBy: gb})
+		if err != nil {
+			return "err | " + dump(s.r)
+		}
+		got := map[string][6]int64{}
+		for _, x := range res {
+			pol := strings.TrimPrefix(x.Policy.Name, "p")
+			k := fmt.Sprintf("%s/%d/%d/%d", pol, int(x.Policy.Action), x.Policy.RuleIndex, int(x.Direction))
+			var c [6]int64
+			if len(x.AllowedIn) > 0 {
+				c = [6]int64{x.AllowedIn[0], x.AllowedOut[0], x.DeniedIn[0], x.DeniedOut[0], x.PassedIn[0], x.PassedOut[0]}
+			}
+			got[k] = c
+		}
+		// ORACLE: statistics over a time range = sums over the accepted flows of the range that are still retained.
+		// The range is the code's: buckets from the one containing start (0: the oldest) up to, not including, the
+		// one containing end (0: the newest, still future, bucket).
+		bs := s.r.VerifBuckets()
+		n := len(bs)
+		si, ei := (s.r.VerifHead()+1)%n, s.r.VerifHead()
+		if gte != 0 {
+			si = s.r.VerifFindBucket(gte)
+		}
+		if lt != 0 {
+			ei = s.r.VerifFindBucket(lt)
+		}
+		var inRange []*accepted
+		if si >= 0 && ei >= 0 {
+			for i := si; i != ei; i = (i + 1) % n {
+				for _, a := range s.flows {
+					if a.bs == bs[i].Start && a.be == bs[i].End {
+						inRange = append(inRange, a)
+					}
+				}
+			}
+		}
+		want := expectStats(inRange, typ, byRule)
+		bad := len(want) != len(got)
+		for k, c := range want {
+			if g, ok := got[k]; !ok || g != c {
+				bad = true
+			}
+		}
+		if bad {
+			h.OracleFail("statistics-not-sum-of-retained", "Statistics over a time range differ from the sums over the accepted flows of that range that are still retained",
+				map[string]any{"op": op, "got": fmt.Sprint(got), "want": fmt.Sprint(want)})
+		}
+		var ks []string
+		for k := range got {
+			ks = append(ks, k)
+		}
+		sort.Slice(ks, func(i, j int) bool {
+			var a, b [4]int
+			fmt.Sscanf(ks[i], "%d/%d/%d/%d", &a[0], &a[1], &a[2], &a[3])
+			fmt.Sscanf(ks[j], "%d/%d/%d/%d", &b[0], &b[1], &b[2], &b[3])
+			for t := 0; t < 4; t++ {
+				if a[t] != b[t] {
+					return a[t] < b[t]
+				}
+			}
+			return false
+		})
+		var ss []string
+		for _, k := range ks {
+			c := got[k]
+			ss = append(ss, fmt.Sprintf("%s:%d,%d,%d,%d,%d,%d", k, c[0], c[1], c[2], c[3], c[4], c[5]))
+		}
+		return strings.Join(ss, ";") + " | " + dump(s.r)
 	case "find":
 		return fmt.Sprintf("%d | %s", s.r.VerifFindBucket(atoi(w[1])), dump(s.r))
 	}
@@ -452,7 +597,37 @@ func genCase(h *rt.H) []string {
 			}
 			emit(fmt.Sprintf("list %d %d", a, b))
 		default:
-			emit(fmt.Sprintf("find %d", pickT()))
+			switch h.Intn(4) {
+			case 0:
+				emit(fmt.Sprintf("find %d", pickT()))
+			case 1:
+				// wrap the ring completely: every slot is recycled
+				for j := 0; j < n+1+h.Intn(3); j++ {
+					emit("roll " + rt.Pick(h, []string{"0", "1", "1"}))
+				}
+			default:
+				i1, i2 := h.Intn(n), h.Intn(n)
+				a, b := bs[i1].Start, bs[i2].Start
+				if a > b {
+					a, b = b, a
+				}
+				if h.Chance(0.3) {
+					a += int64(h.Intn(iv))
+				}
+				if h.Chance(0.3) {
+					b += int64(h.Intn(iv))
+				}
+				if h.Chance(0.25) {
+					a = 0
+				}
+				if h.Chance(0.35) {
+					b = 0
+				}
+				if h.Chance(0.05) {
+					a, b = b, a // inverted range: the code walks around the ring
+				}
+				emit(fmt.Sprintf("stats %d %d %d %d", h.Intn(3), h.Intn(2), a, b))
+			}
 		}
 	}
 	return ops
@@ -462,7 +637,7 @@ func main() {
 	h := rt.New()
 	defer h.Close()
 	h.Rule = "case = one ring (4..10 buckets, interval 1/2/5/15 s, pushAfter 0..2, bucketsToAggregate 1..3; 12% arbitrary options incl. zero-width and non-fitting windows) + 8..57 steps over " +
-		"{add (current / future / boundary / out-of-history / late flows), roll with or without sink, emit, list (bucket-aligned, unaligned, 0 = unbounded), find}; " +
+		"{add (current / future / boundary / out-of-history / late flows), roll with or without sink, emit, list (bucket-aligned, unaligned, 0 = unbounded), stats (packets/bytes/live connections x per policy/per rule over a range; flow keys carry enforced+pending policy hits with allow/deny/pass), full-ring wrap bursts, find}; " +
 		"distinct = distinct op sequence; non-trivial = the sink received at least one non-empty collection or a flow was rejected or a late flow was accepted"
 	run := func(ops []string, tag string) {
 		h.Case(tag)
